@@ -293,10 +293,33 @@ pub fn run(ctx: &mut Ctx) -> Step {
         }
     }
     ctx.stats.bump("c15.sessions");
-    ctx.stats.bump("runs.completed");
     if extreme {
         ctx.stats.bump("c15.extreme-sessions");
+        // after a shuttle of 1200 plies the positions of the cycle have occurred about 300
+        // times each: the side to move now asks its engine for a move
+        for _ in 0..2 {
+            let k = 40 + ctx.tape.log_uniform(2000) as u64;
+            let polls = Cell::new(0u64);
+            let t = SimTimeout::new(&polls, k, k.saturating_add(SLACK));
+            let bot = if a.model.stm == m1::WHITE { &mut a } else { &mut b };
+            let legal = bot.model.legal_moves();
+            let (mv, _score) = op(Op::Plugin, || bot.eng.evaluate(&t));
+            ctx.stats.bump("c15.calls.evaluate-after-saturation");
+            ctx.stats.add("sim.clock-ticks", polls.get());
+            if let Some(cm) = mv {
+                let m = sut::unmv(cm);
+                if !legal.contains(&m) {
+                    return ctx.fail(Prop::C15, "plugin.proposed-illegal", "after=saturation".into(), format!("replica {} proposed {} which is illegal in {}", bot.name, m.text(), bot.model.fen()));
+                }
+                let fa = submit(ctx, &mut a, &mut variants, m, "none")?.1;
+                let fb = submit(ctx, &mut b, &mut variants, m, "none")?.1;
+                if a.hist == b.hist && fa != fb {
+                    return ctx.fail(Prop::C15, "plugin.replicas-differ", String::new(), format!("equal histories, different threefold flags after {}", m.text()));
+                }
+            }
+        }
     }
+    ctx.stats.bump("runs.completed");
     let t: Vec<String> = trace.iter().take(24).cloned().collect();
     ctx.stats.sample(|| format!("{} :: {}", start.fen(), t.join(" ")));
     let mut h = crate::tape::FNV0;
